@@ -18,7 +18,8 @@ NoDt  == [n |-> None, p |-> None, s |-> None, fq |-> FALSE]
 \* start: one of "data" "rcdata" "rawtext" "script" "plaintext"
 TInit(start, last, cdataOk) ==
     [st |-> start, i |-> 1, out |-> <<>>, tag |-> NoTag, cmt |-> <<>>, dt |-> NoDt, buf |-> <<>>,
-     last |-> last, ret |-> "data", code |-> 0, cdataOk |-> cdataOk, done |-> FALSE]
+     last |-> last, ret |-> "data", code |-> 0, cdataOk |-> cdataOk, done |-> FALSE,
+     bk |-> <<>>, cm |-> "none"]          \* bk/cm: html5lib's Characters-token boundaries (see EmitCharsB), not part of the normal form
 
 \* ----- emission (normal form) -----
 EmitChars(out, s) ==
@@ -26,6 +27,16 @@ EmitChars(out, s) ==
     ELSE IF out # <<>> /\ Last(out).t = "Character"
          THEN [out EXCEPT ![Len(out)].d = @ \o s]
          ELSE Append(out, CharTok(s))
+\* ts.bk runs parallel to ts.out: for a Character token the (1-based) positions in its data at which html5lib starts a
+\* new Characters/SpaceCharacters token; <<>> for other tokens.  html5lib's tree construction receives whole tokens,
+\* which matters in the modes that ignore non-space characters (TreeConstruction.ProcChars).  `brk` = this emission
+\* starts a new html5lib token.
+EmitCharsB(ts, s, brk) ==
+    IF s = <<>> THEN ts
+    ELSE IF ts.out # <<>> /\ Last(ts.out).t = "Character"
+         THEN [ts EXCEPT !.out[Len(ts.out)].d = @ \o s,
+                         !.bk[Len(ts.out)] = IF brk THEN Append(@, Len(Last(ts.out).d) + 1) ELSE @]
+         ELSE [ts EXCEPT !.out = Append(@, CharTok(s)), !.bk = Append(@, <<1>>)]
 RECURSIVE DedupAttrs(_, _)
 DedupAttrs(as, acc) ==
     IF as = <<>> THEN acc
@@ -35,17 +46,27 @@ EmitTag(ts) ==
     LET tg == ts.tag IN
     IF tg.k = "s"
     THEN [ts EXCEPT !.out = Append(@, Tk("StartTag", tg.n, DedupAttrs(tg.a, <<>>), tg.sc, <<>>, None, None, FALSE)),
-                    !.last = tg.n, !.st = "data"]
-    ELSE [ts EXCEPT !.out = Append(@, Tk("EndTag", tg.n, <<>>, FALSE, <<>>, None, None, FALSE)), !.st = "data"]
-EmitComment(ts) == [ts EXCEPT !.out = Append(@, CommentTok(ts.cmt)), !.st = "data"]
-EmitDoctype(ts) == [ts EXCEPT !.out = Append(@, Tk("Doctype", ts.dt.n, <<>>, FALSE, <<>>, ts.dt.p, ts.dt.s, ts.dt.fq)), !.st = "data"]
+                    !.last = tg.n, !.st = "data", !.bk = Append(@, <<>>), !.cm = "none"]
+    ELSE [ts EXCEPT !.out = Append(@, Tk("EndTag", tg.n, <<>>, FALSE, <<>>, None, None, FALSE)), !.st = "data",
+                    !.bk = Append(@, <<>>), !.cm = "none"]
+EmitComment(ts) == [ts EXCEPT !.out = Append(@, CommentTok(ts.cmt)), !.st = "data", !.bk = Append(@, <<>>), !.cm = "none"]
+EmitDoctype(ts) == [ts EXCEPT !.out = Append(@, Tk("Doctype", ts.dt.n, <<>>, FALSE, <<>>, ts.dt.p, ts.dt.s, ts.dt.fq)), !.st = "data",
+                              !.bk = Append(@, <<>>), !.cm = "none"]
 Finish(ts) == [ts EXCEPT !.done = TRUE]
 
 \* ----- small helpers -----
-Go(ts, st)      == [ts EXCEPT !.st = st, !.i = @ + 1]            \* consume and switch
-Re(ts, st)      == [ts EXCEPT !.st = st]                          \* reconsume in st
+Go(ts, st)      == [ts EXCEPT !.st = st, !.i = @ + 1, !.cm = "none"]            \* consume and switch
+Re(ts, st)      == [ts EXCEPT !.st = st, !.cm = "none"]                          \* reconsume in st
 Adv(ts)         == [ts EXCEPT !.i = @ + 1]
-Out(ts, s)      == [ts EXCEPT !.out = EmitChars(@, s)]
+Out(ts, s)      == [EmitCharsB(ts, s, TRUE) EXCEPT !.cm = "none"]          \* an emission that is its own html5lib token
+\* one ordinary character in the data / RCDATA states: html5lib emits a leading whitespace run as one token and
+\* otherwise everything up to the next & < NUL as one token
+OutPlain(ts, c) ==
+    IF ts.cm = "tx" THEN EmitCharsB(ts, <<c>>, FALSE)
+    ELSE IF ts.cm = "sp" /\ IsWs(c) THEN EmitCharsB(ts, <<c>>, FALSE)
+    ELSE [EmitCharsB(ts, <<c>>, TRUE) EXCEPT !.cm = IF IsWs(c) THEN "sp" ELSE "tx"]
+\* one ordinary character in the RAWTEXT / script data / PLAINTEXT states: one token up to the next < (or NUL)
+OutRaw(ts, c) == IF ts.cm = "tx" THEN EmitCharsB(ts, <<c>>, FALSE) ELSE [EmitCharsB(ts, <<c>>, TRUE) EXCEPT !.cm = "tx"]
 AppName(ts, c)  == [ts EXCEPT !.tag.n = Append(@, c)]
 NewAttr(ts, nm) == [ts EXCEPT !.tag.a = Append(@, <<nm, <<>>>>)]
 AppAttrName(ts, c)  == [ts EXCEPT !.tag.a[Len(ts.tag.a)][1] = Append(@, c)]
@@ -102,27 +123,28 @@ TStep(ts, src) ==
         IF c = 38 THEN [Go(ts, "charRef") EXCEPT !.ret = "data"]
         ELSE IF c = 60 THEN Go(ts, "tagOpen")
         ELSE IF c = EOF_CP THEN Finish(ts)
-        ELSE Adv(Out(ts, <<c>>))                                   \* NUL is emitted as is
+        ELSE IF c = 0 THEN Adv(Out(ts, <<0>>))                     \* NUL is emitted as is (its own token)
+        ELSE Adv(OutPlain(ts, c))
     [] st = "rcdata" ->
         IF c = 38 THEN [Go(ts, "charRef") EXCEPT !.ret = "rcdata"]
         ELSE IF c = 60 THEN Go(ts, "rcdataLt")
         ELSE IF c = 0 THEN Adv(Out(ts, <<65533>>))
         ELSE IF c = EOF_CP THEN Finish(ts)
-        ELSE Adv(Out(ts, <<c>>))
+        ELSE Adv(OutPlain(ts, c))
     [] st = "rawtext" ->
         IF c = 60 THEN Go(ts, "rawtextLt")
         ELSE IF c = 0 THEN Adv(Out(ts, <<65533>>))
         ELSE IF c = EOF_CP THEN Finish(ts)
-        ELSE Adv(Out(ts, <<c>>))
+        ELSE Adv(OutRaw(ts, c))
     [] st = "script" ->
         IF c = 60 THEN Go(ts, "scriptLt")
         ELSE IF c = 0 THEN Adv(Out(ts, <<65533>>))
         ELSE IF c = EOF_CP THEN Finish(ts)
-        ELSE Adv(Out(ts, <<c>>))
+        ELSE Adv(OutRaw(ts, c))
     [] st = "plaintext" ->
         IF c = 0 THEN Adv(Out(ts, <<65533>>))
         ELSE IF c = EOF_CP THEN Finish(ts)
-        ELSE Adv(Out(ts, <<c>>))
+        ELSE Adv(OutRaw(ts, c))
     [] st = "tagOpen" ->
         IF c = 33 THEN Go(ts, "markupDecl")
         ELSE IF c = 47 THEN Go(ts, "endTagOpen")
